@@ -451,22 +451,27 @@ class BeliefPropagationDecoder(BaseBlockDecoder[Union[LinearBlockCodeEncoder, LD
         def decode_block(received_block: torch.Tensor) -> torch.Tensor:
             """Decode a single block of received codewords."""
             # Decode the block using the decoder's logic
-            B, _, L = received_block.size()
+            # received_block has shape (..., blocks, n): every length-n word is decoded on its own,
+            # whatever the leading batch dimensions and the number of blocks per row
+            lead_shape = received_block.shape[:-1]
+            L = received_block.shape[-1]
             device = received_block.device
-            messages = received_block.view(-1, L)
-            cv = torch.zeros(messages.size(0), self.num_edges, device=device)
+            words = received_block.reshape(-1, L)
+            B = words.size(0)
+            messages = words
+            cv = torch.zeros(B, self.num_edges, device=device)
             for _ in range(self.bp_iters):
                 vc = self.compute_vc(cv, messages)  # *= self.layers1[i % self.w_n]
                 cv = self.compute_cv(vc)
-                messages = self.marginalize(cv, received_block.view(-1, L))
+                messages = self.marginalize(cv, words)
             decoded_block = messages.view(B, L)
             idx_mess = self.idx_mess_t.unsqueeze(0).unsqueeze(0).repeat_interleave(B, dim=0).to(self.device)
             message_llr = decoded_block.view(B, 1, -1).gather(2, idx_mess).contiguous()
 
             decoded_llr = message_llr.view(B, -1)
-            decoded_info = sign_to_bin(torch.sign(decoded_llr))
+            decoded_info = sign_to_bin(torch.sign(decoded_llr)).reshape(*lead_shape, -1)
             if self.return_soft:
-                return (decoded_info, decoded_block)
+                return (decoded_info, decoded_block.reshape(*lead_shape, L))
             return decoded_info
 
         # Check input dimensions
